@@ -54,6 +54,15 @@ def run(tier):
             r7_perm.check_inverse(chk, 'C02.D2', f, 'iperm_r', 'perm_r', cfgname)
         if n1 < 36 or n2 < 40:
             raise AnalysisBroken('C02: instance floors not met (%d, %d)' % (n1, n2))
+        # the expert driver may recompute the column order only for a fresh factorization: with Fact = SamePattern* the elimination tree of the
+        # first call is reused, and a new perm_c no longer matches it (relaxed supernodes from the wrong tree, perm_r not a bijection)
+        from . import _gssvx, _expert
+        from ..rules.effects import PathEffects as _PE
+        _eff = _PE(prog)
+        chk.clause('C02.phases', 'R3 oracle group `phases` of ?gssvx')
+        for p in _drv.PRECS:
+            f2, fl2, leaves2 = _gssvx.leaves_for(prog, _eff, p, ilu=False, tier=tier, split=('Fact', 'ColPerm', 'A.Stype', 'Equil', 'info', 'lwork'))
+            _expert.run_leaf_groups(chk, 'C02', _expert.Ctx(prog, f2, fl2, p, False), leaves2, ('phases',), cfgname)
         if cfgname in ('tested', 'cblas'):
             r9_sibling.run(chk, prog, 'C02.D3', {p + u for p in 'dz' for u in R9_UNITS}, cfgname)
         r9_sibling.run_twins(chk, prog, 'C02.twins', TWINS, cfgname)
